@@ -147,6 +147,12 @@ class TcpConnection(object):
         data = struct.pack('i', len(data)) + data
         self.__writeBuffer += data
         self.__trySendBuffer()
+        if self.__writeBuffer and self.__state == CONNECTION_STATE.CONNECTED:
+            # The socket did not take everything: ask to be called again once it is writable,
+            # otherwise the tail stays in the buffer until the next send().
+            self.__poller.subscribe(self.__fileno,
+                                    self.__processConnection,
+                                    POLL_EVENT_TYPE.READ | POLL_EVENT_TYPE.WRITE | POLL_EVENT_TYPE.ERROR)
 
     def fileno(self):
         return self.__fileno
